@@ -7,9 +7,10 @@ func init() {
 			{Workload: "C12.probe", Mode: "plain", QuickB: 1, ThoroughB: 1},
 			{Workload: "C12.walk", Mode: "plain", QuickB: 10, ThoroughB: 11, ThoroughT: 7200},
 			{Workload: "C12.sweep", Mode: "plain", QuickB: 5, ThoroughB: 4, ThoroughT: 7200},
+			{Workload: "C12.chain", Mode: "plain", QuickB: 12, ThoroughB: 16},
 		},
 		Level:       "exploration",
-		Rule:        "The REAL core.VerifyYouVersionState filters, at every state, the full grid of interesting values of the five header version fields (CurrVersion x NextVersion x NextApprovals x NextVoteBefore x NextSwitchOn: 0, parent value and +-1/+2, threshold and +-1, current round, configured window end +-1, min/max/mid switch round +-1, every kind of known/unknown version, the honest child's values); every accepted candidate is judged by an online trace checker written from the property statement (model/c12_fsm.go: pins target, window end, switch round and the proposing version's parameters at the announcing header and counts approvals itself) as a one-step extension of the chain accepted so far. C12.walk: PRNG-generated params.Versions tables (2-4 versions, vote rounds 1-8, threshold 0..rounds+1, min/max wait 0-6, cyclic/absent/unknown/self approved upgrades, in- and out-of-range upgrade waits, sparse ids, small and 2^40 start rounds), 10 random walks per table that extend one accepted candidate per round (category-weighted: switch/propose/none/clear/+1/+0/other, per-walk approval probability and honest bias). C12.sweep: depth-2 breadth-first deviations around every state of an honest run, each continued by the real builder beyond the switch. At every visited state the header derived by the REAL core.ProcessYouVersionState must be accepted. C12.probe: trace-checker self-test on fabricated traces, directed late-approver/abstainer/honest adversaries on hand-made and on the three real tables (main net, test net, test-case), honest runs through all upgrades of the real tables with the grid around announcement/threshold/window-end/switch rounds, random walks on the real test-case table. A well-formed switch to a locally unknown version (the verifier's intended fatal exit) is recognised beforehand and counted, not executed. distinct_nontrivial = distinct abstract FSM states after a step (phase, edge kind, monitor event, approvals-threshold, rounds to window end, rounds to switch, NextVoteBefore rewritten?) plus table/outcome shapes per case.",
+		Rule:        "The REAL core.VerifyYouVersionState filters, at every state, the full grid of interesting values of the five header version fields (CurrVersion x NextVersion x NextApprovals x NextVoteBefore x NextSwitchOn: 0, parent value and +-1/+2, threshold and +-1, current round, configured window end +-1, min/max/mid switch round +-1, every kind of known/unknown version, the honest child's values); every accepted candidate is judged by an online trace checker written from the property statement (model/c12_fsm.go: pins target, window end, switch round and the proposing version's parameters at the announcing header and counts approvals itself) as a one-step extension of the chain accepted so far. C12.walk: PRNG-generated params.Versions tables (2-4 versions, vote rounds 1-8, threshold 0..rounds+1, min/max wait 0-6, cyclic/absent/unknown/self approved upgrades, in- and out-of-range upgrade waits, sparse ids, small and 2^40 start rounds), 10 random walks per table that extend one accepted candidate per round (category-weighted: switch/propose/none/clear/+1/+0/other, per-walk approval probability and honest bias). C12.sweep: depth-2 breadth-first deviations around every state of an honest run, each continued by the real builder beyond the switch. At every visited state the header derived by the REAL core.ProcessYouVersionState must be accepted. C12.probe: trace-checker self-test on fabricated traces, directed late-approver/abstainer/honest adversaries on hand-made and on the three real tables (main net, test net, test-case), honest runs through all upgrades of the real tables with the grid around announcement/threshold/window-end/switch rounds, random walks on the real test-case table. A well-formed switch to a locally unknown version (the verifier's intended fatal exit) is recognised beforehand and counted, not executed. C12.chain: the same trace checker and the 'active version' read (VersionForRound(r) must be the version of the CANONICAL header 8 rounds back, for every r up to head+8) on REAL BlockChains: an honest main branch and a sibling branch on which the upgrade is announced/approved later (YouV4->YouV5 with scaled-down window/threshold/wait), imported into a third node as main, then the longer sibling (reorg), then a longer main continuation (reorg back), in random chunks; checked after every import on every node, and the node that saw both branches must still build acceptable blocks. distinct_nontrivial = distinct abstract FSM states after a step (phase, edge kind, monitor event, approvals-threshold, rounds to window end, rounds to switch, NextVoteBefore rewritten?) plus table/outcome shapes per case.",
 		Explanation: "held = on the chains of this run no accepted header changed the version outside the announced round / without in-window quorum / before the minimum wait, no block added more than one approval, and no honest child was rejected",
 		Assumptions: []string{
 			"the voting window of a proposal is [announcing round, NextVoteBefore as announced), at most UpgradeVoteRounds of the proposing version long; the announcing block counts as the first approval",
@@ -23,6 +24,7 @@ func init() {
 			"proposals_failed": 2000, "approvals_in_window": 20000, "threshold_reached_in_window": 5000,
 			"steps_deviating_from_honest": 20000, "skipped_unknown_version_fatal": 100, "sweep_depth2": 10000, "monitor_selftest_traces": 15,
 			"real_tables_directed": 3, "real_tables_honest_run": 3, "real_table_upgrades_followed": 12, "tables_with_zero_min_wait": 20,
+			"chain_reorgs_to_sibling": 6, "chain_reorgs_back_to_main": 6, "chain_cases_with_version_divergent_branches": 5, "chain_active_version_lookups": 1000, "canonical_chains_with_switch_checked": 20,
 		},
 	}
 }
